@@ -24,6 +24,7 @@ MAP = [
     ("not a multiple of the entry size", ["C11"]), ("into its own subtree", ["C04", "C02"]),
     ("truncated target", ["C09", "C19", "C05"]),
     ("never started the shrinker", ["C05"]),
+    ("does not fit in one journal transaction", ["C09", "C10", "C05", "C07"]),
 ]
 log = subprocess.run(["git", "-C", "/repo", "log", "--reverse", "--format=%h\t%s"], stdout=subprocess.PIPE, text=True).stdout
 p = os.path.join(VERIF, "known_findings.json")
